@@ -182,8 +182,35 @@ func New(o Options) (*Session, error) {
 		s.sidName[fmt.Sprintf("%x", c2s[:])] = name + ".c2s"
 		s.sidName[fmt.Sprintf("%x", sid[:])] = name
 	}
+	secrets := [][]byte{Magic, s.Entropy, s.S.Key.PubKey().SerializeCompressed(),
+		s.C.Key.PubKey().SerializeCompressed(), s.S.Key.PubKey().SerializeCompressed()[1:],
+		s.C.Key.PubKey().SerializeCompressed()[1:], s.S.Key.Serialize(), s.C.Key.Serialize()}
+	s.Relay.Leak = func(msg []byte) bool {
+		for _, x := range secrets {
+			if bytes.Contains(msg, x) {
+				return true
+			}
+		}
+		return false
+	}
 	s.Relay.OnEvent = func(e relay.Event) {
-		s.Rec.Emit("relay", "op", e.Ev, "sid", s.SidName(e.SID), "len", e.Len, "err", e.Err)
+		if e.Head == nil {
+			s.Rec.Emit("relay", "op", e.Ev, "sid", s.SidName(e.SID), "len", e.Len, "err", e.Err)
+			return
+		}
+		// what the relay sees of a message: the GBN packet type, for DATA
+		// the final-chunk and ping flags, and whether the leak detector
+		// matched (application plaintext, auth data, the passphrase
+		// entropy, a static public or private key)
+		kind, fin, ping := -1, 0, 0
+		if len(e.Head) > 0 {
+			kind = int(e.Head[0])
+		}
+		if kind == 2 && len(e.Head) >= 4 { // gbn.DATA
+			fin, ping = int(e.Head[2]), int(e.Head[3])
+		}
+		s.Rec.Emit("relay", "op", e.Ev, "sid", s.SidName(e.SID), "len", e.Len, "err", e.Err,
+			"kind", kind, "fin", fin, "ping", ping, "plain", b2i(e.Plain))
 	}
 	var err error
 	s.Srv, err = mailbox.NewVerifServer(s.Host, s.S.Data, s.Relay, func(st mailbox.ServerStatus) {
